@@ -193,6 +193,8 @@ M("dm14_busy_answer_stale_error", ["C19"], "D37 reverted: busy answer repeats th
   ("j1939/Dm14Server.py", "self.error if (self._busy and self.error != 0x00) else 0x2,", "self.error if self.error != 0x00 else 0x2,"))
 M("aac_no_range_check", ["C13"], "D38 reverted: an arbitrary-address-capable CA walks past 253",
   ("j1939/controller_application.py", "if (self._name.arbitrary_address_capable == False) or (self._device_address_announced >= 253):", "if self._name.arbitrary_address_capable == False:"))
+M("dm1_cycle_ignores_ca_state", ["C13"], "D39 reverted: the DM1 cycle calls send_pgn whatever the CA's state",
+  ("j1939/diagnostic_messages.py", "        if self._ca.state != j1939.ControllerApplication.State.NORMAL:", "        if False:"))
 M("tp21_grant_ignores_rts_limit", ["C09", "C03"], "responder grant ignores the RTS limit",
   ("j1939/j1939_21.py", "            max_num_packages = min(max_num_packages, num_packages)\n", "            max_num_packages = num_packages\n"))
 M("tp21_hold_ignored", ["C09"], "zero-packet CTS treated as 'continue'",
